@@ -259,6 +259,22 @@ def steer_clear_of_close(S: bytes) -> bool:
     return b"connection" not in low and b"http/1.0" not in low and b"HTTP/0." not in S
 
 
+def directed_responses():
+    H = b"HTTP/1.1 200 OK\r\nTransfer-Encoding: chunked\r\n\r\n"
+    out = []
+    for after_data in (b"\r\n", b"\n", b"\r\r\n", b"\r\r\r\n", b"\r \r\n"):
+        out.append(H + b"3\r\nabc" + after_data + b"0\r\n\r\n")
+    for size_line in (b"3\r\r\n", b" 3\r\n", b"3 \r\n", b"\t3\t;x=y\r\n", b"3\n", b"03\r\n"):
+        out.append(H + size_line + b"abc\r\n0\r\n\r\n")
+    for tail in (b"\r\n", b"\n", b"\rX-T: 1\r\n\r\n", b"\r\r\n", b"\r\rX-T: 1\r\n\r\n", b"X-T: 1\r\r\n\r\n", b"X-T: 1\n\n", b"\r\n\r\n"):
+        out.append(H + b"3\r\nabc\r\n0\r\n" + tail)
+    closing = b"HTTP/1.0 200 OK\r\nContent-Length: 2\r\n\r\nok"
+    for behind in (b"HTTP/1.1 301 " + b"a" * 70 + b"\r" + b"b" * 30 + b"\r\nConnection: close\r\n\r\n", b"x" * 120, b"\r\n", b"\r", b"\r\r", b"H", b"HTTP/1.1 204 No\r\n\r\n"):
+        out.append(closing + behind)
+        out.append(b"HTTP/1.1 200 OK\r\nConnection: close\r\nContent-Length: 2\r\n\r\nok" + behind)
+    return out
+
+
 def run_shard(spec, rec):
     kind = spec["kind"]
     seed = spec["seed"] * 1000003 + spec["sub"] * 7919 + {"pairs": 11, "singles": 12, "responses": 13, "limits": 14, "classes": 15, "compressed": 16}[kind]
@@ -277,6 +293,16 @@ def run_shard(spec, rec):
             if i % 7 == 0:
                 rec.sample({"kind": "request", "class": cls, "stream": S[:200].decode("latin1"), "cfg": cfg, "canonical": canon[0][:2], "violations": list(found)})
     elif kind == "responses":
+        # directed lax-mode oddities (every run): stray CRs around chunk data, the last-chunk line and trailers, blank
+        # padding of chunk sizes, and bytes behind a message that closes the connection (complete and unfinished lines,
+        # under small and default limits).  Each is explored with every single cut (pairs of cuts when short).
+        if spec["sub"] % 2 == 0:
+            for k, S in enumerate(directed_responses()):
+                for lim in ((8190, 8190, 128), (48, 48, 128)):
+                    for rb in (2**16, 2):
+                        cfg = {"limits": lim, "limit": rb, "read_until_eof": True, "method": "GET"}
+                        explore("response", S, cfg, rec, "directed-lax", "pairs" if len(S) <= 90 else "singles", rng, "main")
+                        rec.count("directed-lax-streams")
         i = 0
         while i < spec["n"]:
             parts = []
